@@ -91,11 +91,33 @@ class PathState:
 
     def check(self, *extra, full=False):
         self.nchecks += 1
+        self._alt_model = None
         t0 = time.time()
-        if full and self.hard:
-            r = self.solver.check(*(list(extra) + self.hard))
-        else:
-            r = self.solver.check(*extra)
+        r = z3.unknown
+        if self.notes.get('bv'):
+            # bit-vector terms on the path.  (1) the bit-vector-free part of the path condition alone often refutes the query
+            # (facts implied by earlier character tests): a subset that is unsat makes the whole unsat
+            from . import bvroute
+            nb = self.notes.get('nobv_solver')
+            if nb is None:
+                nb = self.notes['nobv_solver'] = [z3.Solver(), 0]
+                nb[0].set('timeout', 1500)
+            asserts = self.solver.assertions()
+            for c in list(asserts)[nb[1]:]:
+                if not bvroute.has_bv([c]):
+                    nb[0].add(c)
+            nb[1] = len(asserts)
+            ex = list(extra) + (self.hard if full else [])
+            if not bvroute.has_bv(ex) and nb[0].check(*ex) == z3.unsat:
+                r = z3.unsat
+            else:
+                # (2) the pure bit-vector translation (the combined Int/BV solver only times out on these)
+                r = self._bv_route(ex, r)
+        if r == z3.unknown:
+            if full and self.hard:
+                r = self.solver.check(*(list(extra) + self.hard))
+            else:
+                r = self.solver.check(*extra)
         dt = time.time() - t0
         STATS['checks'] += 1
         STATS['solver_s'] += dt
@@ -103,6 +125,42 @@ class PathState:
         if r == z3.unknown:
             self.unknown += 1
         return r
+
+    def _bv_route(self, extra, r):
+        """path conditions with bit-vector terms (bech32): decide the pure bit-vector translation (symx/bvroute.py); a `sat`
+        answer is confirmed by the ordinary solver with the variables pinned (so that solver.model() is available)"""
+        from . import bvroute
+        base = list(self.solver.assertions())
+        cons = base + list(extra)
+        bounded = set(v.get_id() for v in self.inputs) | set(rr.get_id() for rr, t, c in self.defs) | set(v.get_id() for v, t in self.cutrec)
+        bounded |= set(self.notes.get('bounded_ids', ()))
+        route = self.notes.get('bv_route')
+        if route is None:
+            route = self.notes['bv_route'] = bvroute.Route()
+        status, asg = route.solve(base, list(extra), bounded, CONFIG['query_timeout_ms'])
+        STATS['bv_route_' + status] = STATS.get('bv_route_' + status, 0) + 1
+        self.notes['bv_last'] = (status, asg if status == 'unknown' else None)
+        if status == 'unsat':
+            return z3.unsat
+        if status == 'sat':
+            # confirmation on the original condition with every variable pinned, in a fresh (non-incremental) solver
+            s2 = z3.Solver()
+            s2.set('timeout', CONFIG['query_timeout_ms'])
+            s2.add(cons)
+            s2.add([v == val for v, val in asg])
+            r2 = s2.check()
+            if r2 == z3.sat:
+                self._alt_model = s2.model()
+                return z3.sat
+            STATS['bv_route_unconfirmed_' + str(r2)] = STATS.get('bv_route_unconfirmed_' + str(r2), 0) + 1
+        return r
+
+    def last_model(self):
+        """model of the last check() that returned sat"""
+        m = getattr(self, '_alt_model', None)
+        if m is not None:
+            return m
+        return self.solver.model()
 
     def check_valid(self, phi, depths=(1, 3, 7)):
         """is phi implied by the path condition?  returns ('unsat', None) [= valid], ('sat', model) or ('unknown', None).
@@ -116,7 +174,7 @@ class PathState:
         else:
             neg = z3.Not(phi)
         cons = self.constraints
-        if len(cons) > 12:
+        if len(cons) > 12 and not self.notes.get('bv'):
             cvars = [term_vars(c) for c in cons]
             target = set(term_vars(neg))
             if isinstance(phi, bool):
@@ -159,7 +217,7 @@ class PathState:
         if r == z3.unsat:
             return 'unsat', None
         if r == z3.sat:
-            return 'sat', self.solver.model()
+            return 'sat', self.last_model()
         if self.hard and self.inputs:
             m = self.witness_model(extra=[neg])      # heuristic counterexample search (a model found this way is a real model)
             if m is not None:
@@ -270,14 +328,14 @@ class PathState:
             self.solver.set('timeout', CONFIG['query_timeout_ms'])
             self.last_status = str(r)
             if r == z3.sat:
-                return self.solver.model()
+                return self.last_model()
             if r == z3.unsat or not self.hard or not self.inputs:
                 return None
         import random
         rnd = random.Random(len(self.decisions))
         if self.check(*extra) != z3.sat:
             return None
-        relaxed = self.solver.model()
+        relaxed = self.last_model()
         n = len(self.inputs)
         m = self._fast_witness(relaxed, extra)
         if m is not None:
@@ -305,7 +363,7 @@ class PathState:
                 self.solver.set('timeout', CONFIG['query_timeout_ms'])
                 if r == z3.sat:
                     self.last_status = 'sat'
-                    return self.solver.model()
+                    return self.last_model()
                 if r == z3.unsat:
                     self.last_status = 'unsat'
                     return None
@@ -405,12 +463,12 @@ def fork(cond, prefer=True):
         r = st.check(cond)
         can_t = (r != z3.unsat)      # unknown: treated as feasible (counted; unit becomes inconclusive)
         if r == z3.sat:
-            st.model = st.solver.model()
+            st.model = st.last_model()
     if can_f is None:
         r = st.check(z3.Not(cond))
         can_f = (r != z3.unsat)
         if r == z3.sat and not can_t:
-            st.model = st.solver.model()
+            st.model = st.last_model()
     if can_t and can_f:
         st.pending.append(st.decisions + [not prefer])
         d = prefer
@@ -474,6 +532,7 @@ def cut(term, lo, hi, hard=False):
     st.defs.append((r, term, st.constraints[-1]))
     st.cutrec.append((r, term))
     st.var_constraints[r.get_id()] = rng
+    st.notes.setdefault('var_range', {})[r.get_id()] = (lo, hi)
     return r
 
 
@@ -1535,6 +1594,9 @@ def contains(container, item):
         if isinstance(item, SInt):
             alts = [item.z == k for k in container if isinstance(k, int)]
             return SBool(z3.Or(alts)) if alts else False
+        if isinstance(item, SBV):
+            alts = [zbool(bv_cmp('Eq', item, k)) for k in container if isinstance(k, (int, SInt, SBV)) and not isinstance(k, bool)]
+            return SBool(z3.Or(alts)) if alts else False
         if any(sym(k) for k in container) and isinstance(container, (tuple, list)):
             return SBool(z3.Or([zbool(k == item) for k in container]))
         return item in container
@@ -1684,11 +1746,15 @@ def dict_get(d, k, default=None):
             asc = is_ascii(c)
             dflt = default.chars[0]
 
+            rng = CUR.notes.get('var_range', {}).get(c.get_id()) if not isinstance(c, int) else None
+
             def build():
                 val = dflt
                 for kk, vv in d.items():
                     if asc and ord(kk) >= 128:
                         continue
+                    if rng is not None and not (rng[0] <= ord(kk) <= rng[1]):
+                        continue        # key outside the range the harness gave this input character
                     if ord(kk) == ord(vv) and dflt is c:
                         continue
                     val = z3.If(c == ord(kk), ord(vv), val)
@@ -1696,9 +1762,9 @@ def dict_get(d, k, default=None):
             if isinstance(dflt, int):
                 val = build()
             else:
-                val = memo(('dg', id(d), c.get_id(), dflt.get_id(), asc), (d, c, dflt), build)
-            if val is c:
-                return k
+                val = memo(('dg', id(d), c.get_id(), dflt.get_id(), asc, rng), (d, c, dflt), build)
+            if val is c or (not isinstance(val, int) and not isinstance(c, int) and val.eq(c)):
+                return k          # (the memo may return the wrapper object of an earlier path for the same term)
             r = named(val, 'm')
             derived_char(r, c)
             return SStr([r])
@@ -2746,7 +2812,7 @@ def concretize(x, limit=48):
                 raise Infeasible('infeasible')
             if r != z3.sat:
                 raise Unsupported('concretize: solver returned unknown')
-            m = st.model = st.solver.model()
+            m = st.model = st.last_model()
         val = model_val(m, x)
         if isinstance(x, SStr):
             cond = x._eqz(val)
@@ -3119,6 +3185,7 @@ def sym_today():
             # checks that are not about the clock pin it (and freeze the replay clock to the same date)
             st.add(z3.And(y == fixed.year, m == fixed.month, d == fixed.day))
         st.notes['today'] = SDate(y, m, d)
+        st.notes.setdefault('bounded_ids', []).extend([y.get_id(), m.get_id(), d.get_id()])
     return st.notes['today']
 
 
@@ -3540,6 +3607,8 @@ def symstr(n, name='s', lo=0, hi=0x10ffff):
     chars = [z3.Int('%s_%d' % (name, i)) for i in range(n)]
     for c in chars:
         constrain_var(c, z3.And(c >= lo, c <= hi))
+        if (lo, hi) != (0, 0x10ffff):
+            CUR.notes.setdefault('var_range', {})[c.get_id()] = (lo, hi)
     CUR.inputs.extend(chars)
     return SStr(chars), chars
 
@@ -3558,6 +3627,7 @@ def symstr_alpha(n, alphabet, name='s'):
     cps = sorted(set(ord(a) for a in alphabet))
     for c in chars:
         constrain_var(c, in_ranges(c, _to_ranges(cps)))
+        CUR.notes.setdefault('var_range', {})[c.get_id()] = (cps[0], cps[-1])
     CUR.inputs.extend(chars)
     return SStr(chars), chars
 
@@ -3670,7 +3740,14 @@ class SBV:
     def __init__(self, z, bits):
         if bits > BVW:
             raise Unsupported('bit-vector value wider than %d bits' % BVW)
+        # canonical form (bit tests become extracts, masks/shifts become concat/extract): two transcriptions of the same
+        # round function then build the same hash-consed term and their agreement needs no equivalence proof
+        # terms are deliberately NOT simplified: the simplifier orders commutative arguments by AST id, so two runs of the
+        # same computation could end in structurally different terms; unsimplified, two transcriptions that perform the
+        # same operations build the same hash-consed term and their agreement needs no equivalence proof
         self.z, self.bits = z, bits
+        if CUR is not None:
+            CUR.notes['bv'] = True
 
     def nonzero(self):
         return self.z != 0
@@ -3713,13 +3790,16 @@ def _tobv(x):
     if isinstance(x, SBool):
         return z3.If(x.z, z3.BitVecVal(1, BVW), z3.BitVecVal(0, BVW)), 1
     if isinstance(x, SInt):
-        t = _int_term_to_bv(z3.simplify(x.z))
+        t = _int_term_to_bv(x.z)
         if t is not None:
             return t
+        rng = CUR.notes.get('var_range', {}).get(x.z.get_id()) if CUR is not None else None
+        if rng is not None and 0 <= rng[0] and rng[1] < 2 ** 23:
+            return z3.Int2BV(x.z, BVW), int(rng[1]).bit_length()      # cut-point variable with a known small range
         # range obligation: the value must fit (checked by the solver, forks if it may not)
-        if not fork(z3.And(x.z >= 0, x.z < 2 ** 40)):
+        if not fork(z3.And(x.z >= 0, x.z < 2 ** 23)):
             raise Unsupported('bit operation on out-of-range symbolic int')
-        return z3.Int2BV(x.z, BVW), 40
+        return z3.Int2BV(x.z, BVW), 23
     raise Unsupported('bit operation on %s' % type(x).__name__)
 
 
@@ -3752,7 +3832,7 @@ def bv_cmp(op, l, r):
     if isinstance(r, int) and not isinstance(r, bool) and (r < 0 or r >= 2 ** (BVW - 1)):
         neg = r < 0
         return {'Eq': False, 'NotEq': True, 'Lt': not neg, 'LtE': not neg, 'Gt': neg, 'GtE': neg}[op]
-    if isinstance(r, SInt) and _int_term_to_bv(z3.simplify(r.z)) is None:
+    if isinstance(r, SInt) and _int_term_to_bv(r.z) is None:
         return getattr(l.to_int(), '__%s__' % _OPS[op])(r)
     if not isinstance(r, (int, SInt, SBool, SBV)):
         if op == 'Eq':
